@@ -403,7 +403,30 @@ CLAIMED = {
              "over histories is not decided.",
         technique="CFG dominance / ORDER / response on the instantiated template + who-writes over all members",
         design="5/C51"),
+    "C41": dict(
+        text="Decides (a) the gate/argument-role protocol of Acl::SplayInserter<T>::Merge on every loop-body path (new value dropped only if covered by the old one, old "
+             "value removed only if covered or merged, one comparator, loop ends only on a successful insert), (b) that SplayInserter<char*>::IsSubset and the "
+             "equal-suffix/mismatch parts of matchDomainName(h,d,mdnNone) are pure decision tables over their comparison atoms equal to a reference table on "
+             "representatives of every region, (c) Compare<char*>'s gate and operand roles, (d) the match/parse lookup wiring and two-sided tolower() comparisons. "
+             "It does not decide that these tables together realise set membership for all domain lists and insertion orders, the splay tree, or matchDomainName's prologue.",
+        technique="path-enumerated loop-body protocol + finite decision-table folding over comparison atoms (abstract evaluation of the CFG over ordering representatives)",
+        design="5/C41 (revised in 0.5)"),
+    "C42": dict(
+        text="Decides the Merge gate/role protocol for acl_ip_data*; that Compare, IsSubset, aclIpAddrNetworkCompare and ACLIP::match touch their operands only through "
+             "Ip::Address orderings and family flags and equal a reference decision table on every ordering of the range ends; the operand roles of MakeCombinedValue, "
+             "firstAddress/lastAddress, the constructor, parse and parseGlobal (all/ipv4/ipv6). It does not decide that insertion order and lookup order agree for all "
+             "address sets, Ip::Address arithmetic (applyMask, turnMaskedBitsOn, matchIPAddr), FactoryParse's text decoding, or the splay tree.",
+        technique="exhaustive ordering-table folding + loop-body path protocol + operand-role checks",
+        design="5/C42 (revised in 0.5)"),
+    "C43": dict(
+        text="Decides that ACLIntRange::parse stores [port1, port2+1) exactly when port2 >= port1 (port2 = port1 without '-'), that match(i) probes [i, i+1) against every "
+             "element of the same list and answers true exactly on a non-empty intersection, and that Range<int>'s constructor, size() and intersection() are (start,end), "
+             "max(0,end-start) and (max of starts, min of ends), by folding the code over representatives of every ordering and compared constant. xatos() text decoding, "
+             "token splitting and overflow at INT_MAX are not decided.",
+        technique="decision-table folding over ordering representatives with a small abstract interpreter for the parse loop body",
+        design="5/C43 (revised in 0.5)"),
 }
+
 
 
 NOT_APPLICABLE = {
@@ -414,12 +437,6 @@ NOT_APPLICABLE = {
            "only shape-visible clause (a truncated body is never presented as complete) is already decided under C01/C10.",
     "C19": "Cross-process schedules over shared memory; byte identity across workers is a run-time relation. The shape-visible core (the lock/slice protocol of the shared "
            "index) is claimed under C54/C55/C53; the remainder needs execution or model checking, which is another technique family.",
-    "C41": "Set-equivalence of the domain comparator/merge algebra over all insertion orders is value reasoning about string suffix relations (matchDomainName); "
-           "a decision-table clause of IsSubset is being built, until then nothing is claimed.",
-    "C42": "Union-of-sets equivalence of the IP comparator/merge algebra (Compare/IsSubset/MakeCombinedValue over masked addresses, all insertion orders): value reasoning about "
-           "128-bit address arithmetic, not code shape; an AST rule would freeze today's implementation.",
-    "C43": "Union-of-ranges equivalence of ACLIntRange::parse's merge algebra over all insertion orders: value reasoning over integer intervals handled by a solver or testing, "
-           "not by a structural rule.",
     "C49": "Conformance of mem_hdr with a byte-map model over write/free/read histories; stmem.cc has no gate other than value-dependent assertions.",
     "C50": "Set algebra over 256-entry tables and maximal-munch of Tokenizer are per-value semantics; the constants built with them are folded and checked under C22.",
 }
